@@ -3,7 +3,7 @@
    aaa3b3c, which replaced the unchecked dereferences by the generated nil-safe getters). *)
 From Coq Require Import List NArith ZArith String Bool Lia.
 From V.Base Require Import Hex BigEndian.
-From V.C09 Require Import Modes Gen Model Proofs Roundtrip Json.
+From V.C09 Require Import Modes Gen Model Proofs Roundtrip Json Wire WireProofs Assemble AssembleProofs EndToEnd.
 Import ListNotations.
 
 Section Json.
@@ -225,25 +225,153 @@ Proof.
   - unfold tx_wf, hash32, sign_ok. cbn. repeat split.
 Qed.
 
-Print Assumptions C09_tx_total.
-Print Assumptions C09_txs_total.
-Print Assumptions C09_header_total.
-Print Assumptions C09_block_total.
-Print Assumptions C09_group_total.
-Print Assumptions C09_tx_total_refuted.
-Print Assumptions C09_header_total_refuted.
-Print Assumptions C09_group_total_refuted.
-Print Assumptions C09_time_roundtrip.
-Print Assumptions C09_time_fixed_point_refuted.
-Print Assumptions C09_tx_roundtrip.
-Print Assumptions C09_header_roundtrip.
-Print Assumptions C09_hash_stable.
-Print Assumptions C09_block_roundtrip.
-Print Assumptions C09_tx_fixed_point.
-Print Assumptions C09_header_fixed_point.
-Print Assumptions C09_group_roundtrip.
-Print Assumptions C09_group_header_fixed_point.
-Print Assumptions C09_example.
-Print Assumptions C09_header_one_pass.
-Print Assumptions C09_genhash_preimage_stable.
-Print Assumptions C09_genhash_nil_slice_refuted.
+(* ================= the protobuf wire layer (gogo/protobuf table-driven decoder/encoder) ================= *)
+
+(* varints: what appendVarint writes for x < 2^64 is read back by decodeVarint, which stops there *)
+Theorem C09_varint_roundtrip : forall x r, (x < 2 ^ 64)%N -> dec_varint (enc_varint x ++ r) = Some (x, r).
+Proof. exact dec_enc_varint. Qed.
+
+(* decodeVarint consumes between 1 and 10 bytes of its input and nothing else (no read beyond the input);
+   anything longer, truncated, or with a tenth byte above 1 is an error *)
+Theorem C09_varint_reads_within_input : forall b x r, dec_varint b = Some (x, r) ->
+  exists pre, b = pre ++ r /\ (1 <= List.length pre <= 10)%nat.
+Proof. exact dec_varint_suffix. Qed.
+
+(* the message decoder is total: with fuel = length of the input it never runs out, for ANY schema, message
+   name and byte string -- the result is a list of field occurrences, or one of three errors *)
+Theorem C09_wire_decoder_total : forall sc m b, unmarshal_occs sc m b <> UFuel.
+Proof. exact unmarshal_occs_total. Qed.
+
+(* decoding what the encoder writes returns exactly the occurrences written (any schema; nested messages) *)
+Theorem C09_wire_roundtrip : forall sc m l, conf sc m l -> dec_fields (List.length (enc_occs l)) sc m (enc_occs l) = WOk l.
+Proof. intros sc m l C. exact (dec_enc_occs sc m l C _ (le_n _)). Qed.
+
+(* proto.Unmarshal (proto.Marshal p) = p for the pb messages of the generated schema (all lengths and integers
+   within their Go types) *)
+Theorem C09_pb_tx_roundtrip : forall p b, pb_tx_ok p -> marshal_tx Gen.msgs p = Some b -> unmarshal_tx Gen.msgs b = UOk p.
+Proof. exact unmarshal_marshal_tx. Qed.
+Theorem C09_pb_txs_roundtrip : forall p b, pb_txs_ok p -> marshal_txs Gen.msgs p = Some b -> unmarshal_txs Gen.msgs b = UOk p.
+Proof. exact unmarshal_marshal_txs. Qed.
+Theorem C09_pb_header_roundtrip : forall p b, pb_hdr_ok p -> marshal_hdr Gen.msgs p = Some b -> unmarshal_hdr Gen.msgs b = UOk p.
+Proof. exact unmarshal_marshal_hdr. Qed.
+Theorem C09_pb_block_roundtrip : forall p b, pb_block_ok p -> marshal_block Gen.msgs p = Some b -> unmarshal_block Gen.msgs b = UOk p.
+Proof. exact unmarshal_marshal_block. Qed.
+Theorem C09_pb_group_roundtrip : forall p b, pb_group_ok p -> req_ok req_depth Gen.msgs "Group" (group_occs Gen.msgs p) = true ->
+  marshal_group Gen.msgs p = Some b -> unmarshal_group Gen.msgs b = UOk p.
+Proof. exact unmarshal_marshal_group. Qed.
+
+(* the wire format is NOT canonical and the property does not need it to be: unknown fields (any wire type, groups
+   included), fields out of order, repeated optional scalars (last one wins) and overlong varints decode to the
+   same message as the encoder's own bytes.  Kernel-evaluated instance: Type=1, Nonce=5 *)
+Example C09_noncanonical_example :
+  let canonical := [16;5;40;1]%N in
+  let odd := [40;7; 248;7;9; 16;133;0; 91;8;1;92; 40;129;128;0]%N in
+  marshal_tx Gen.msgs (mk_pb_tx None (Some 5%N) None None (Some 1%Z) None None None None None None None None None None) = Some canonical /\
+  unmarshal_tx Gen.msgs canonical = unmarshal_tx Gen.msgs odd /\
+  unmarshal_tx Gen.msgs odd = UOk (mk_pb_tx None (Some 5%N) None None (Some 1%Z) None None None None None None None None None None).
+Proof. vm_compute. repeat split; reflexivity. Qed.
+
+Section Bytes.
+Variable SubT : Type.
+Variable sub_enc : SubT -> bytes.
+Variable sub_dec : bytes -> SubT.
+Variable sub_nil : SubT.
+Variable ReqT : Type.
+Variable req_enc : ReqT -> bytes.
+Variable req_dec : bytes -> ReqT.
+Variable req_nil : ReqT.
+
+(* ---- totality from the bytes: wire model composed with the conversion model; PPanic = nil dereference,
+   PFuel = the model's fuel ran out (excluded) ---- *)
+Theorem C09_UnMarshalTransaction_total : forall b,
+  UnMarshalTransaction SubT sub_dec sub_nil b <> PPanic /\ UnMarshalTransaction SubT sub_dec sub_nil b <> PFuel.
+Proof. exact (UnMarshalTransaction_total SubT sub_dec sub_nil). Qed.
+Theorem C09_UnMarshalTransactions_total : forall b,
+  UnMarshalTransactions SubT sub_dec sub_nil b <> PPanic /\ UnMarshalTransactions SubT sub_dec sub_nil b <> PFuel.
+Proof. exact (UnMarshalTransactions_total SubT sub_dec sub_nil). Qed.
+Theorem C09_UnMarshalBlockHeader_total : forall b,
+  UnMarshalBlockHeader ReqT req_dec req_nil b <> PPanic /\ UnMarshalBlockHeader ReqT req_dec req_nil b <> PFuel.
+Proof. exact (UnMarshalBlockHeader_total ReqT req_dec req_nil). Qed.
+Theorem C09_UnMarshalBlock_total : forall b,
+  UnMarshalBlock SubT sub_dec sub_nil ReqT req_dec req_nil b <> PPanic /\ UnMarshalBlock SubT sub_dec sub_nil ReqT req_dec req_nil b <> PFuel.
+Proof. exact (UnMarshalBlock_total SubT sub_dec sub_nil ReqT req_dec req_nil). Qed.
+Theorem C09_UnMarshalGroup_total : forall b, UnMarshalGroup b <> PPanic /\ UnMarshalGroup b <> PFuel.
+Proof. exact UnMarshalGroup_total. Qed.
+
+(* ---- losslessness through the bytes ---- *)
+Theorem C09_tx_bytes_roundtrip : forall t b, tx_wf SubT sub_enc sub_dec t -> pb_tx_ok (tx_to_pb SubT sub_enc t) ->
+  MarshalTransaction SubT sub_enc t = Some b -> UnMarshalTransaction SubT sub_dec sub_nil b = PVal (tx_wire_view SubT t).
+Proof. exact (tx_bytes_roundtrip SubT sub_enc sub_dec sub_nil). Qed.
+
+(* a node-producible header always serialises, and parsing the bytes returns the identical header: every function of
+   it -- BlockHeader.GenHash -- is the same before storing/relaying and after loading/receiving *)
+Theorem C09_header_bytes_roundtrip : forall h, hdr_wf ReqT req_enc req_dec h ->
+  (forall p, hdr_to_pb ReqT req_enc h = Some p -> pb_hdr_ok p) ->
+  exists b, MarshalBlockHeader ReqT req_enc h = Some b /\ UnMarshalBlockHeader ReqT req_dec req_nil b = PVal (Some h).
+Proof. exact (hdr_bytes_roundtrip ReqT req_enc req_dec req_nil). Qed.
+
+Theorem C09_hash_stable_bytes : forall (X : Type) (gen_hash : hdr ReqT -> X) h, hdr_wf ReqT req_enc req_dec h ->
+  (forall p, hdr_to_pb ReqT req_enc h = Some p -> pb_hdr_ok p) ->
+  exists b h', MarshalBlockHeader ReqT req_enc h = Some b /\ UnMarshalBlockHeader ReqT req_dec req_nil b = PVal (Some h') /\
+               gen_hash h' = gen_hash h.
+Proof.
+  intros X f h W O. destruct (hdr_bytes_roundtrip ReqT req_enc req_dec req_nil h W O) as (b & A & B). exists b, h. auto.
+Qed.
+
+Theorem C09_block_bytes_roundtrip : forall k p b, block_wf SubT sub_enc sub_dec ReqT req_enc req_dec k ->
+  block_to_pb SubT sub_enc ReqT req_enc k = Ok p -> pb_block_ok p -> marshal_block Gen.msgs p = Some b ->
+  UnMarshalBlock SubT sub_dec sub_nil ReqT req_dec req_nil b = PVal (block_wire_view SubT ReqT k).
+Proof. exact (block_bytes_roundtrip SubT sub_enc sub_dec sub_nil ReqT req_enc req_dec req_nil). Qed.
+
+End Bytes.
+
+Theorem C09_group_bytes_roundtrip : forall g p b, group_wf g -> group_to_pb g = Ok p -> pb_group_ok p ->
+  req_ok req_depth Gen.msgs "Group" (group_occs Gen.msgs p) = true -> marshal_group Gen.msgs p = Some b ->
+  UnMarshalGroup b = PVal (group_wire_view g).
+Proof. exact group_bytes_roundtrip. Qed.
+
+(* one audit of everything above: the tuple of all property theorems *)
+Definition C09_all_theorems := (@C09_tx_total,
+  @C09_txs_total,
+  @C09_header_total,
+  @C09_block_total,
+  @C09_tx_total_refuted,
+  @C09_header_total_refuted,
+  @C09_group_total,
+  @C09_group_total_refuted,
+  @C09_time_roundtrip,
+  @C09_time_fixed_point_refuted,
+  @C09_time_roundtrip_refuted,
+  @C09_tx_roundtrip,
+  @C09_header_roundtrip,
+  @C09_hash_stable,
+  @C09_block_roundtrip,
+  @C09_tx_fixed_point,
+  @C09_header_fixed_point,
+  @C09_header_one_pass,
+  @C09_genhash_preimage_stable,
+  @C09_genhash_nil_slice_refuted,
+  @C09_group_roundtrip,
+  @C09_group_header_fixed_point,
+  @C09_example,
+  @C09_varint_roundtrip,
+  @C09_varint_reads_within_input,
+  @C09_wire_decoder_total,
+  @C09_wire_roundtrip,
+  @C09_pb_tx_roundtrip,
+  @C09_pb_txs_roundtrip,
+  @C09_pb_header_roundtrip,
+  @C09_pb_block_roundtrip,
+  @C09_pb_group_roundtrip,
+  @C09_noncanonical_example,
+  @C09_UnMarshalTransaction_total,
+  @C09_UnMarshalTransactions_total,
+  @C09_UnMarshalBlockHeader_total,
+  @C09_UnMarshalBlock_total,
+  @C09_UnMarshalGroup_total,
+  @C09_tx_bytes_roundtrip,
+  @C09_header_bytes_roundtrip,
+  @C09_hash_stable_bytes,
+  @C09_block_bytes_roundtrip,
+  @C09_group_bytes_roundtrip).
+Print Assumptions C09_all_theorems.
